@@ -85,6 +85,14 @@ func lexExpr(s string) ([]tok, error) {
 						b.WriteByte('\t')
 					case '0':
 						b.WriteByte(0)
+					case 'x':
+						if j+2 < len(s) {
+							var v int
+							if _, err := fmt.Sscanf(s[j+1:j+3], "%02x", &v); err == nil {
+								b.WriteByte(byte(v))
+								j += 2
+							}
+						}
 					default:
 						b.WriteByte(s[j])
 					}
@@ -111,6 +119,14 @@ func lexExpr(s string) ([]tok, error) {
 					v = "\t"
 				case '0':
 					v = "\x00"
+				case 'x':
+					var x int
+					if j+3 < len(s) {
+						if _, err := fmt.Sscanf(s[j+2:j+4], "%02x", &x); err == nil {
+							v = string([]byte{byte(x)})
+							j += 2
+						}
+					}
 				default:
 					v = string(s[j+1])
 				}
